@@ -20,6 +20,8 @@ def cases(rng, tier, focus):
             for re_ in ((0, 1) if fam[0] in ('CUR', 'PCovCUR') else (None,)):
                 nrow, ncol = int(rng.integers(7, 12)), int(rng.integers(7, 12))
                 X = rng.normal(size=(nrow, ncol)); y = rng.normal(size=nrow) if fam[0].startswith('PCov') else None
+                # data on other scales (the round-off residue of an orthogonalised column must not be taken for a direction of the data)
+                X = X * [1.0, 1e3, 1e-3][(rep + len(fam[0]) + (re_ or 0)) % 3]
                 N = S.N_of(fam, X)
                 for n in (4, min(N - 1, 7)):
                     for sch in schedules(rng, n, tier):
@@ -49,7 +51,7 @@ def check(c):
     expect(sw['idx'] == sc['idx'], sig('relational[C08]:warm-started-chain-reproduces-the-cold-selection'), f"schedule {c['sched']}: {sw['idx']} vs cold {sc['idx']}")
     for a in sc:
         if a == 'idx': continue
-        expect(a in sw and np.allclose(sw[a], sc[a], rtol=1e-9, atol=1e-12, equal_nan=True), sig(f'relational[C08]:warm-started-chain-reproduces-the-cold-state:{a}'), f"schedule {c['sched']}")
+        expect(a in sw and np.allclose(sw[a], sc[a], rtol=1e-7, atol=1e-9 * max(1.0, float(np.nanmax(np.abs(np.where(np.isfinite(sc[a]), sc[a], 0))))), equal_nan=True), sig(f'relational[C08]:warm-started-chain-reproduces-the-cold-state:{a}'), f"schedule {c['sched']}")
     try:
         u = S.make(fam, dict(kw, n_to_select=2)); S.fit(u, fam, X, y, warm_start=True)
         expect(False, sig('reject[C08]:warm-start-on-a-never-fitted-selector-is-rejected'))
